@@ -129,6 +129,7 @@ func resolve(l *Lay, val map[string]bool) (*Lay, error) {
 
 // layEqual compares got with want for every feasible valuation of their atoms.
 func layEqual(got, want *Lay, extraFeasible func(map[string]bool) bool) (bool, string, int) {
+	got, want = canonLay(got), canonLay(want)
 	atoms := map[string]bool{}
 	layAtoms(got, atoms)
 	layAtoms(want, atoms)
@@ -198,4 +199,83 @@ func firstDiff(g, w *Lay) string {
 		}
 	}
 	return "identical"
+}
+
+// canonAtom brings an integer comparison atom into one of two shapes, "(a == b)" or "(a < b)", and tells
+// whether the literal's truth value flips: a != b is !(a == b); a >= b is !(a < b); a > b is b < a;
+// a <= b is !(b < a); and over the integers (x - 1) < y is !(y < x), y < (x + 1) is !(x < y).
+func canonAtom(a string) (string, bool) {
+	if len(a) < 5 || a[0] != '(' || a[len(a)-1] != ')' {
+		return a, false
+	}
+	depth := 0
+	for i := 0; i < len(a); i++ {
+		switch a[i] {
+		case '(', '[':
+			depth++
+		case ')', ']':
+			depth--
+		case ' ':
+			if depth != 1 {
+				continue
+			}
+			for _, op := range []string{"==", "!=", "<=", ">=", "<", ">"} {
+				if strings.HasPrefix(a[i+1:], op+" ") {
+					lhs, rhs := a[1:i], a[i+1+len(op)+1:len(a)-1]
+					flip := false
+					switch op {
+					case "==":
+						return a, false
+					case "!=":
+						return "(" + lhs + " == " + rhs + ")", true
+					case ">=":
+						flip = true
+					case ">":
+						lhs, rhs = rhs, lhs
+					case "<=":
+						lhs, rhs = rhs, lhs
+						flip = true
+					}
+					// now: lhs < rhs (possibly negated)
+					if strings.HasPrefix(lhs, "(") && strings.HasSuffix(lhs, " - 1)") {
+						x := lhs[1 : len(lhs)-5]
+						return "(" + rhs + " < " + x + ")", !flip
+					}
+					if strings.HasPrefix(rhs, "(") && strings.HasSuffix(rhs, " + 1)") {
+						x := rhs[1 : len(rhs)-5]
+						return "(" + x + " < " + lhs + ")", !flip
+					}
+					return "(" + lhs + " < " + rhs + ")", flip
+				}
+			}
+			// the first top-level space decides: not a comparison we know
+		}
+	}
+	return a, false
+}
+
+// canonLay returns a copy of the layout whose condition atoms are canonical.
+func canonLay(l *Lay) *Lay {
+	if l == nil {
+		return nil
+	}
+	c := *l
+	c.Items = nil
+	for _, it := range l.Items {
+		c.Items = append(c.Items, canonLay(it))
+	}
+	c.Cases = nil
+	for _, cs := range l.Cases {
+		nc := selCase{L: canonLay(cs.L)}
+		for _, conj := range cs.Conds {
+			var nj []condLit
+			for _, lit := range conj {
+				a, flip := canonAtom(lit.Atom)
+				nj = append(nj, condLit{Atom: a, Truth: lit.Truth != flip})
+			}
+			nc.Conds = append(nc.Conds, nj)
+		}
+		c.Cases = append(c.Cases, nc)
+	}
+	return &c
 }
